@@ -235,7 +235,21 @@ func indexGuarded(f *ssa.Function, idx, x ssa.Value, at *ssa.BasicBlock) bool {
 		if !ok {
 			continue
 		}
-		isIdx := func(v ssa.Value) bool { return sameValue(canonConv(v), canonConv(idx)) }
+		isIdx := func(v ssa.Value) bool {
+			if !sameValue(canonConv(v), canonConv(idx)) {
+				return false
+			}
+			// a comparison made on a signed view of a 64-bit unsigned input value proves nothing about huge values:
+			// int(u) is negative for u >= 2^63, passes `< len` and then panics as an index
+			if bt, ok := v.Type().Underlying().(*types.Basic); ok && bt.Info()&types.IsUnsigned == 0 {
+				if rt, ok := canonConv(idx).Type().Underlying().(*types.Basic); ok && rt.Info()&types.IsUnsigned != 0 {
+					if rt.Kind() == types.Uint64 || rt.Kind() == types.Uint || rt.Kind() == types.Uintptr {
+						return false
+					}
+				}
+			}
+			return true
+		}
 		isLen := func(v ssa.Value) bool {
 			if a, ok := isLenOf(v); ok && sameValue(a, x) {
 				return true
